@@ -335,7 +335,7 @@ func ruleTopK(r *Run, rule string, k *vecKind) {
 				r.Und(rule, k.Name+":fill", ssite, "stored element is not a composite literal")
 				continue
 			}
-			idx := c.S(ia.Index)
+			idx := c.idx(ia.Index)
 			node, score := fields["Node"], fields["Score"]
 			if node == nil || score == nil {
 				r.Bad(rule, k.Name+":fill", ssite, "VectorResult literal lacks Node or Score")
@@ -346,6 +346,13 @@ func ruleTopK(r *Run, rule string, k *vecKind) {
 			wantN := base + "[" + idx + "]." + sinks[0].ElemF
 			wantS := base + "[" + idx + "]." + sinks[0].DistF
 			good := ns == wantN && ss == wantS
+			// "range" names the index of whichever range loop encloses the copy: the source must be read at the very
+			// same index value
+			for _, src := range []ssa.Value{node, score} {
+				if si := elemIndexOf(src); si != nil && si != ia.Index {
+					good = false
+				}
+			}
 			r.Check(good, rule, k.Name+":fill", ssite,
 				"out[i] = {Node: L[i]."+sinks[0].ElemF+", Score: L[i]."+sinks[0].DistF+"} with the same i",
 				fmt.Sprintf("out[%s] is filled from Node=%s Score=%s; expected %s / %s", idx, ns, ss, wantN, wantS))
@@ -357,9 +364,16 @@ func ruleTopK(r *Run, rule string, k *vecKind) {
 					break
 				}
 				if iff, ok := d.Instrs[len(d.Instrs)-1].(*ssa.If); ok {
-					if bo, ok := iff.Cond.(*ssa.BinOp); ok && bo.Op == token.LSS && bo.X == ia.Index && bo.Y == ssa.Value(kcall) &&
-						(d.Succs[0] == b || d.Succs[0].Dominates(b)) {
-						okBound = true
+					if bo, ok := iff.Cond.(*ssa.BinOp); ok && bo.Op == token.LSS && bo.X == ia.Index && (d.Succs[0] == b || d.Succs[0].Dominates(b)) {
+						if bo.Y == ssa.Value(kcall) {
+							okBound = true
+						}
+						// for i := range out: the bound is len(out) = K
+						if lc, ok := bo.Y.(*ssa.Call); ok {
+							if bi, ok := lc.Call.Value.(*ssa.Builtin); ok && bi.Name() == "len" && lc.Call.Args[0] == ssa.Value(mk) {
+								okBound = true
+							}
+						}
 					}
 				}
 			}
@@ -571,6 +585,11 @@ func rulePipeline(r *Run, rule string, exec, single *ssa.Function, modality stri
 					strip(x.Call.Args[0], depth+1)
 					return
 				}
+				// a later step that is the identity unless a new option is set (paging by an offset that defaults to 0)
+				if inner, ok := identityAtDefault(w, exec, x); ok {
+					strip(inner, depth+1)
+					return
+				}
 				leaves = append(leaves, v)
 			default:
 				leaves = append(leaves, v)
@@ -591,6 +610,9 @@ func rulePipeline(r *Run, rule string, exec, single *ssa.Function, modality stri
 				continue
 			}
 			kk := c.S(lc.Call.Args[1])
+			if inner, isID := identityAtDefault(w, exec, lc.Call.Args[1]); isID {
+				kk = c.S(inner) // k widened by an option that defaults to "no widening"
+			}
 			agg, ok := lc.Call.Args[0].(*ssa.Call)
 			if !ok || !agg.Call.IsInvoke() || agg.Call.Method.Name() != "Aggregate" {
 				r.Bad(rule, key+":aggregate", site, "LimitResults is not applied to the result of Aggregate: "+c.S(lc.Call.Args[0]))
@@ -874,6 +896,25 @@ func ruleNodeLookup(r *Run, rule string, k *vecKind) {
 				cp := NewCanon(w)
 				rv := resolveOnPath(pth, elems[0])
 				es := cp.S(rv)
+				// node.Vector() of a node chosen earlier on the path (found-flag form): the receiver is resolved
+				if call, isCall := rv.(*ssa.Call); isCall && strings.HasPrefix(es, "get:vector(") {
+					var recv ssa.Value
+					if call.Call.IsInvoke() {
+						recv = call.Call.Value
+					} else if len(call.Call.Args) > 0 {
+						recv = call.Call.Args[0]
+					}
+					if a, isA := recv.(*ssa.Alloc); isA {
+						if sv := singleStore(a); sv != nil {
+							recv = sv // the node was copied into an addressable local for the pointer-receiver call
+						}
+					}
+					if _, isPhi := recv.(*ssa.Phi); isPhi {
+						if rr := resolveOnPath(pth, recv); rr != recv {
+							es = "get:vector(" + cp.S(rr) + ")"
+						}
+					}
+				}
 				if !strings.HasPrefix(es, "get:vector(") {
 					good = false
 					continue
@@ -1050,4 +1091,23 @@ func ruleLookupNotFound(r *Run, rule string, k *vecKind, sinks []*ssa.Call) {
 	r.Check(bad == 0, rule, k.Name+":lookup:notfound", w.Pos(fn.Pos())+" "+name,
 		"every feasible iteration over a requested id either appends its vector or returns an error",
 		fmt.Sprintf("%d feasible iteration paths neither append a vector nor return an error (unknown id silently skipped)", bad))
+}
+
+// elemIndexOf: v is X[i].f (or X[i]) loaded from a slice element; returns i.
+func elemIndexOf(v ssa.Value) ssa.Value {
+	for d := 0; d < 6; d++ {
+		switch x := v.(type) {
+		case *ssa.UnOp:
+			v = x.X
+		case *ssa.FieldAddr:
+			v = x.X
+		case *ssa.Field:
+			v = x.X
+		case *ssa.IndexAddr:
+			return x.Index
+		default:
+			return nil
+		}
+	}
+	return nil
 }
